@@ -88,6 +88,7 @@ T = [
     ("sum_chains needs the group variables as such in the tuple, not inside arithmetic", "C13", ["sum_chains"], "{ p(G,V) : d(G,V) } 1 :- g(G).\nt(X) :- X = #sum { V,G/2 : p(G,V) }.\n", [["d", 2], ["g", 1]], [["p", 2], ["t", 1]], [["d(2,5)", "d(3,5)", "g(2)", "g(3)"]], BIJ, ["equiv"], {}),
     ("sum_chains needs the group variables as such in the tuple, not inside arithmetic", "C13", ["sum_chains"], "{ p(G,V) : d(G,V) } 1 :- g(G).\n:~ p(G,V). [V@1,G/2]\n", [["d", 2], ["g", 1]], [["p", 2]], [["d(2,5)", "d(3,5)", "g(2)", "g(3)"]], {"kind": "set", "voc": "out", "cost": True}, ["equiv"], {}),
     ("sum_chains leaves an element alone whose weight variable is bound outside of the aggregate", "C13", ["sum_chains"], "{ p(G,V) : d(G,V) } 1 :- g(G).\nt(X) :- X = #sum { V,G : p(G,V) }, q(V).\n", [["d", 2], ["g", 1], ["q", 1]], [["p", 2], ["t", 1]], [["d(1,5)", "d(2,5)", "d(1,3)", "g(1)", "g(2)", "q(5)"]], BIJ, ["equiv"], {}),
+    ("math only solves a relation for a variable when no solutions are lost by the division", "C14", ["math"], "a(X,Y) :- b(X); c(Y); Z = (Z*X); Z = (Y*Y).\n", [["b", 1], ["c", 1]], [["a", 2]], [["b(3)", "b(1)", "c(0)"]], BIJ, ["equiv"], {}),
 ]
 
 
